@@ -19,12 +19,13 @@ Definition C01_no_contradicting_pin_full_statement : Prop :=
 (* Each witness is a closed equation about the outcome of perform_compile on a concrete universe
    (definitions w_* in WitnessSolver.v), decided by vm_compute. *)
 
-(* a-1.0 requires b[y] unconditionally and b[z] under extra x; b-1.0 requires c<2 under extra y.
-   The run succeeds with a==1.0, b==1.0, c==2.0 although 2.0 is not <2. *)
-Lemma c01_extras_overwrite_witness :
+(* (after the /repo fix that combines the reasons of one edge) a-1.0 requires b[y] unconditionally and b[z]
+   under extra x; b-1.0 requires c<2 under extra y: the edge a -> b carries b[y,z], so c<2 is enforced and the
+   run ends with a==1.0, b==1.0, c==1.0 (it used to emit c==2.0). *)
+Lemma c01_extras_combined_witness :
   w_c01_extras_overwrite_pins (w_c01_extras_overwrite_run 100)
-    = [Some (Some "1.0"); Some (Some "1.0"); Some (Some "2.0")] /\
-  spec_contains [mkC OLt (mkV 0 [2%N] None None None []) false] (mkV 0 [2%N; 0%N] None None None []) true = false.
+    = [Some (Some "1.0"); Some (Some "1.0"); Some (Some "1.0")] /\
+  spec_contains [mkC OLt (mkV 0 [2%N] None None None []) false] (mkV 0 [1%N; 0%N] None None None []) true = true.
 Proof. split; vm_compute; reflexivity. Qed.
 
 (* (after /repo 8ac3bda) pins.txt says c==1.0, pins2.txt says c==3.0: the pins are merged and the run fails on c *)
